@@ -211,7 +211,20 @@ func HarnessC18Nested() {
 	}
 	before := copyObj(el)
 	var data interface{}
-	switch verifChoose(6) {
+	want := &inner
+	keys := []string{"a", "b"}
+	switch verifChoose(8) {
+	case 6: // a member that is a declared property and also matches a pattern property: both offer defaults for its content
+		pin := objWith(map[string]spec.Schema{"z": numSchema(30.0)})
+		s = objWith(map[string]spec.Schema{"meta": inner})
+		s.PatternProperties = map[string]spec.Schema{"^m": pin}
+		data = map[string]interface{}{"meta": el}
+		want = &spec.Schema{}
+		want.AllOf = []spec.Schema{inner, pin}
+		keys = append(keys, "z")
+	case 7: // a member matched by a pattern property only
+		s.PatternProperties = map[string]spec.Schema{"^m": inner}
+		data = map[string]interface{}{"mx": el}
 	case 0:
 		s = objWith(map[string]spec.Schema{"o": inner})
 		data = map[string]interface{}{"o": el}
@@ -249,7 +262,7 @@ func HarnessC18Nested() {
 	res := validate.NewSchemaValidator(&s, nil, "", nil).Validate(data)
 	verifAssume(res.IsValid())
 	ApplyDefaults(res)
-	checkDefaultsAt(&inner, before, el, []string{"a", "b"})
+	checkDefaultsAt(want, before, el, keys)
 	verifReach("end")
 }
 
